@@ -179,15 +179,16 @@ def categorical_support(cx):
     probs = cx.seq('probabilities', DR)
     cx.param(self=cx.obj('Categorical', probabilities=probs))
     i = z3.Int('i')
-    cx.ensures(lambda st, r: z3.ForAll([i], z3.Implies(z3.And(0 <= i, i < z3.Length(probs.t)), member(r.t, z3.ToReal(i)))))
+    # the support is {0, ..., len-1}: stated element-wise (the i-th element of the built set is i)
+    cx.ensures(lambda st, r: z3.And(z3.Length(r.t) == z3.Length(probs.t),
+                                    z3.ForAll([i], z3.Implies(z3.And(0 <= i, i < z3.Length(probs.t)), r.t[i] == z3.ToReal(i)))))
 
 
 @contract(D + 'discrete_uniform.py', 'DiscreteUniform.get_support', ['C08', 'C05'])
 def discrete_uniform_support(cx):
     vals = cx.seq('values', DN)
     cx.param(self=cx.obj('DiscreteUniform', values=vals))
-    i = z3.Int('i')
-    cx.ensures(lambda st, r: z3.ForAll([i], z3.Implies(z3.And(0 <= i, i < z3.Length(vals.t)), member(r.t, vals.t[i]))))
+    cx.ensures(lambda st, r: r.t == vals.t)           # exactly the value list
 
 
 for f_, c_ in (('bernoulli.py', 'Bernoulli'), ('categorical.py', 'Categorical'), ('discrete_uniform.py', 'DiscreteUniform')):
